@@ -428,6 +428,13 @@ class Model(object):
 
         equation_count = 0
 
+        # Forget roles assigned when an earlier graph was built: they follow from the current equations alone
+        for variable in self._name_to_variable.values():
+            variable.type = None
+        for equation in self.equations:
+            for variable in equation.atoms(Variable):
+                variable.type = None
+
         # Add a node for every variable in the model, and set variable types
         for equation in self.equations:
             equation_count += 1
